@@ -196,6 +196,48 @@ def r_conversion_sites(P, rep, rule):
         rep.undecided(rule, 'parse.c:funcall:declared', 'no path converts an argument to a declared parameter type', where=where)
     if n_var == 0:
         rep.ob(rule, 'parse.c:funcall:float-variadic-argument-promoted', False, 'no path promotes a float argument passed through "..." to double', where=where)
+    # ---- the same for an argument whose type is a *copy* of float (what casts, float arithmetic and float parameters carry: new_cast()/func_params()
+    # copy the type object): the promotion must look at the kind of the type, not at the identity of the ty_float object
+    where = 'parse.c:%d' % pu.fn('funcall').line
+
+    def float_copy_hook(it_, ctx, o, f, t):
+        if o.tname == 'Node' and f == 'ty' and (o.label or '').startswith('assign'):
+            ty = Obj('Type', lazy=False, label='copy-of-float')
+            ty.fields.update({'kind': pu.enums['TY_FLOAT'], 'size': 4, 'align': 4, 'is_unsigned': 0, 'base': 0, 'next': 0, 'origin': 0, 'is_atomic': 0})
+            return ty
+        return NotImplemented
+    tm2 = TokenModel(P, pu, ['funcall'], extra_opaque=['assign', 'add_type', 'new_cast', 'new_lvar', 'copy_type'], loop_limit=2, lazy_field=float_copy_hook)
+    it2 = tm2.interp()
+
+    def mk2(ctx):
+        fn = Obj('Node', lazy=True, label='fn')
+        fty = Obj('Type', lazy=True, label='fty')
+        fty.fields['kind'] = pu.enums['TY_FUNC']
+        fty.fields['params'] = 0          # no declared parameter: every argument is passed through "..." / an unprototyped call
+        fn.fields['ty'] = fty
+        return [_Ref(VarPlace({'rest': None}, 'rest')), tm2.token('tok'), fn]
+    n_args = n_prom = 0
+    for ctx, out in it2.explore('funcall', mk2, max_paths=2000):
+        if out[0] != 'ret':
+            continue
+        casts = [e for e in ctx.events if e[0] == 'call' and e[1] == 'new_cast']
+        for ae in [e for e in ctx.events if e[0] == 'call' and e[1] == 'assign']:
+            raw = ae[4]
+            rawobj = [c for c in raw.cell.cands if isinstance(c, Obj)][0] if isinstance(raw, View) else raw
+            n_args += 1
+            mine = [c for c in casts if (c[2][0] is raw or c[2][0] is rawobj)]
+            tys = []
+            for c in mine:
+                t = c[2][1]
+                t = it2.settle(t) if isinstance(t, View) else t
+                tys.append(getattr(t, 'label', None) or repr(t))
+            okp = tys == ['g:ty_double']
+            n_prom += 1 if okp else 0
+            rep.ob(rule, 'parse.c:funcall:float-typed-variadic-argument-promoted', okp,
+                   'an argument whose type is a float type object other than the ty_float singleton (a cast to float, float arithmetic, a float parameter) is passed through "..." %s: it must be converted to double (C11 6.5.2.2p6)'
+                   % ('unconverted' if not tys else 'converted to %r' % tys), where=where, facts={'path': ctx.trail[-8:]})
+    if n_args == 0:
+        rep.undecided(rule, 'parse.c:funcall:float-typed-variadic-argument-promoted', 'no path of funcall consumes an argument in the unprototyped scenario', where=where)
     # ---- postfix ++ / --
     where = 'parse.c:%d' % pu.fn('new_inc_dec').line
 
